@@ -38,8 +38,8 @@ CONFIG = {
         modules=["CanVerif.Props.C06", "CanVerif.Bridge.FrameGo", "CanVerif.Props.C06Code"],
         t2_modules=["CanVerif.Bridge.FrameGo", "CanVerif.Props.C06Code"],
         technique="Lean 4 kernel-checked theorems about an executable model; the model is tied to the code (a) by a Go-to-Lean translator run on every check with equivalence to the model proved for all inputs (bv_decide) and (b) by differential execution (correspondence) on every run",
-        level_text="Kernel-checked Lean theorems (Props/C06.lean): transmit layout of every frame, flag/ID/length/data decoding of every one of the 2^128 blocks, error-frame fields at the linux/can/error.h offsets, validation iff, and decode(encode f) = f for every valid frame; the model is compared with the real Transmitter/Receiver (public API, recording net.Conn / scripted reader) on all 2^11 standard IDs, structured and random extended IDs and blocks on every run; flag/mask constants cross-checked against golang.org/x/sys/unix. Frame.Validate, encodeFrame, decodeFrame, the flag / ID getters and the error-frame getters are additionally translated from the working tree to Lean on every run (T1, harness/cmd/go2lean) and proved equal to the model for every frame, and panic-free (Bridge/FrameGo.lean, bv_decide); Props/C06Code.lean restates validation, transmit block, receive decoding, error fields and the round trip about the translated code (the 16-byte slice layout step stays the model's). If the translator does not cover the current source shape the run says so (coverage.tie_notes) and rests on the correspondence run.",
-        level_note="Trusted: Lean kernel; Model/Frame.lean validated by correspondence; the byte<->BitVec 128 conversion of the driver; kernel ABI constants transcribed by hand (cross-checked with x/sys/unix). T1 bridge theorems and the *Code corollaries additionally depend on bv_decide certificate axioms (listed per theorem under coverage.axioms); marshalBinary / unmarshalBinary (byte slices) are not translated.",
+        level_text="Kernel-checked Lean theorems (Props/C06.lean): transmit layout of every frame, flag/ID/length/data decoding of every one of the 2^128 blocks, error-frame fields at the linux/can/error.h offsets, validation iff, and decode(encode f) = f for every valid frame; the model is compared with the real Transmitter/Receiver (public API, recording net.Conn / scripted reader) on all 2^11 standard IDs, structured and random extended IDs and blocks on every run; flag/mask constants cross-checked against golang.org/x/sys/unix. Frame.Validate, encodeFrame, decodeFrame, the flag / ID getters and the error-frame getters are additionally translated from the working tree to Lean on every run (T1, harness/cmd/go2lean) and proved equal to the model for every frame, and panic-free (Bridge/FrameGo.lean, bv_decide); marshalBinary / unmarshalBinary are translated too (the first 16 bytes of the slice and its length are modelled; shorter slices provably panic at the code's own bounds check); Props/C06Code.lean restates validation, the transmitted 16 bytes, the decoding of every one of the 2^128 received blocks, error fields and the end-to-end round trip about the translated transmit and receive paths (codeWire, codeUnwire). If the translator does not cover the current source shape the run says so (coverage.tie_notes) and rests on the correspondence run.",
+        level_note="Trusted: Lean kernel; Model/Frame.lean validated by correspondence; the byte<->BitVec 128 conversion of the driver; kernel ABI constants transcribed by hand (cross-checked with x/sys/unix). T1 bridge theorems and the *Code corollaries additionally depend on bv_decide certificate axioms (listed per theorem under coverage.axioms); Byte slices are modelled as their first 16 bytes plus length; the composition of the translated functions in TransmitFrame / Receive (fresh zero buffer, fresh zero frame) is written by hand in Props/C06Code.lean (codeWire, codeUnwire).",
         level="proof", exhaustive=True,
         exhaustive_what="all 2^11 standard IDs; all 8 flag combinations x 37 ID patterns x dlc classes for received blocks; Validate for every length 0..255",
         trivial=r"^(ok|err|-)$",
